@@ -903,6 +903,471 @@ def run_contiguity(ctx, r):
     r.require(set(flat) >= set(range(-1, 6)), st, st.loc(), "the encoder does not send every region of the share: %s" % sorted(set(flat)))
 
 
+# ------------------------------------------------------------------ UEB keys
+def run_ueb(ctx, r):
+    idx = ctx.idx
+    enc = idx.cls(ENC)
+    written = {}
+    for m in enc.methods.values():
+        for (k, v, n) in ueb_stores(m):
+            written.setdefault(k, []).append((m, n))
+    if len(written) < 8:
+        raise AnchorVanished("Encoder: fewer than 8 UEB keys are stored (%s)" % sorted(written))
+    r.site(enc.methods["_got_all_encoding_parameters"], None, "encoder writes UEB keys %s" % sorted(written))
+    # the size pre-computation asserts the exact key set (put_uri_extension checks the length)
+    gs = idx.func(ENC + ".get_uri_extension_size")
+    sets = [c for n in gs.cfg().nodes if n.kind == "test" and n.assume and isinstance(n.ast, ast.Compare)
+            for c in [n.ast.left] + n.ast.comparators if isinstance(c, ast.Set)]
+    if len(sets) != 1:
+        raise AnchorVanished("get_uri_extension_size: key-set assertion not found")
+    declared = {e.value for e in sets[0].elts if isinstance(e, ast.Constant)}
+    r.site(gs, sets[0], "declared key set")
+    r.require(declared == set(written), gs, gs.loc(sets[0]), "the URI-extension size is computed for keys %s but the encoder "
+              "writes %s" % (sorted(declared ^ set(written)), sorted(written)))
+    # key grammar and integer conversion
+    pk = idx.func("uri:pack_extension")
+    pats = [c.args[0].value for c in calls_in_func(pk, "match") if c.args and isinstance(c.args[0], ast.Constant)
+            and isinstance(c.args[0].value, (bytes, str))]
+    if len(pats) != 1:
+        raise AnchorVanished("pack_extension: key grammar not found")
+    pat = pats[0] if isinstance(pats[0], bytes) else pats[0].encode()
+    r.site(pk, None, "key grammar %r" % pat)
+    for k in sorted(written):
+        m, n = written[k][0]
+        r.require(re.match(pat, k.encode()) is not None, m, m.loc(n.ast), "UEB key %r does not fit the key grammar %r of "
+                  "pack_extension" % (k, pat))
+    up = idx.func("uri:unpack_extension")
+    intkeys = None
+    for n in up.cfg().nodes:
+        if n.kind == "iter" and isinstance(n.ast.iter, (ast.Tuple, ast.List)) \
+                and all(isinstance(e, ast.Constant) and isinstance(e.value, str) for e in n.ast.iter.elts):
+            body_ints = [c for c in calls_in_func(up, "int") if isinstance(c.args[0], ast.Subscript)
+                         and isinstance(c.args[0].slice, ast.Name) and c.args[0].slice.id == getattr(n.ast.target, "id", None)]
+            if body_ints:
+                intkeys = {e.value for e in n.ast.iter.elts}
+    if intkeys is None:
+        raise AnchorVanished("unpack_extension: integer key conversion loop not found")
+    r.site(up, None, "integer keys %s" % sorted(intkeys))
+
+    def reads(fn):
+        """[(key, node, unconditional)] for d[key] loads where d is the unpacked UEB."""
+        s = Sym(idx, fn)
+        cfg = fn.cfg()
+        fnorm = FlowNorm(fn)
+        out = []
+        for n in cfg.nodes:
+            for e in node_exprs(n):
+                for x in own_nodes(e):
+                    if isinstance(x, ast.Subscript) and isinstance(x.ctx, ast.Load) and _const_key(x) is not None \
+                            and isinstance(x.value, ast.Name):
+                        base = s.expand(n, x.value)
+                        if isinstance(base, ast.Call) and call_tail(base) == "unpack_extension":
+                            key = _const_key(x)
+
+                            def guard(m, lab, _k=key):
+                                f = fnorm.edge_fact(m, lab)
+                                return bool(f) and f[0] == "in" and f[1] == repr(_k)
+                            uncond = bool(find_path_avoiding(cfg, lambda q, _n=n: q is _n, gate_edge=guard))
+                            out.append((key, n, uncond))
+        return out
+    for q, arith in ((NODE + "._parse_and_store_UEB", {"segment_size"}),
+                     ("immutable.checker:ValidatedExtendedURIProxy._parse_and_validate", {"segment_size"})):
+        fn = idx.func(q)
+        rs = reads(fn)
+        if not rs:
+            raise AnchorVanished("%s reads no UEB field" % q)
+        r.site(fn, None, "reads %s" % sorted({k for k, _n, u in rs if u}))
+        for k, n, uncond in rs:
+            if uncond:
+                r.require(k in written, fn, fn.loc(n.ast), "%s needs UEB key %r which the encoder never writes" % (short(fn), k))
+            if k in arith:
+                r.require(k in intkeys, fn, fn.loc(n.ast), "UEB key %r is used as a number but unpack_extension does not convert it" % k)
+
+
+# ------------------------------------------------------------- pad and trim
+def gated_by_truth(fn, target_pred, name_nf, polarity="truth"):
+    """All paths to nodes satisfying target_pred pass an edge on which `name_nf` is truthy."""
+    cfg = fn.cfg()
+    fnorm = FlowNorm(fn)
+
+    def gate(n, lab):
+        f = fnorm.edge_fact(n, lab)
+        return bool(f) and f[0] == polarity and f[1] == name_nf
+    return find_path_avoiding(cfg, target_pred, gate_edge=gate)
+
+
+def is_tail_expr(fn, sym, node, e, seg_name, numseg_nf):
+    """e is (seg == <num_segments> - 1)."""
+    x = sym.expand(node, e)
+    got = Normaliser(Env(None, depth=0)).cmp(x, True)
+    want = Normaliser(Env(None, depth=0)).cmp(parse_expr("%s == %s - 1" % (seg_name, numseg_nf)), True)
+    return got == want, got
+
+
+def run_padtrim(ctx, r):
+    idx = ctx.idx
+    nrm = Normaliser(Env(None, depth=0))
+    # ---- writer: _gather_data pads only when allow_short, up to read_size
+    gd = idx.func(ENC + "._gather_data")
+    got = gd.nested.get("_got")
+    if got is None:
+        raise AnchorVanished("Encoder._gather_data._got")
+    gdp = first_positional_params(gd)
+
+    def pads(n):
+        return any(isinstance(x, ast.BinOp) and isinstance(x.op, ast.Mult) and any(
+            isinstance(y, ast.Constant) and isinstance(y.value, bytes) for y in (x.left, x.right))
+            for e in node_exprs(n) for x in own_nodes(e))
+    pn = got.cfg().find(pads)
+    if len(pn) != 1:
+        raise AnchorVanished("_gather_data._got: padding statement not found")
+    r.site(got, pn[0].ast, "tail padding")
+    for (n, w) in gated_by_truth(got, pads, "allow_short"):
+        r.violation(got, got.loc(n.ast), "segment data is padded on a path where allow_short was not tested true "
+                    "(path: %s)" % w.brief(), w)
+    a = pn[0].ast
+    ok = isinstance(a, ast.AugAssign) and isinstance(a.op, ast.Add) and isinstance(a.target, ast.Name)
+    if ok:
+        mult = a.value
+        other = mult.right if isinstance(mult.left, ast.Constant) else mult.left
+        padlen = nrm.poly(other)
+        gs = Sym(idx, gd)
+        free = sorted(names_in(other) - {a.target.id})
+        ok = len(free) == 1
+        if ok:
+            # the free name is bound in _gather_data: the requested read size
+            dn = [n for n in gd.cfg().nodes if free[0] in node_stores(n)]
+            ok = len(dn) == 1 and nrm.poly(gs.expand(dn[0], assign_value(dn[0], free[0]))) == \
+                Poly.atom(gdp[0]) * Poly.atom(gdp[1]) and padlen == Poly.atom(free[0]) - Poly.atom("len(%s)" % a.target.id)
+            rc = the_call(gd, "read_encrypted")
+            ok = ok and nf(gs.expand(node_of(gd, rc), rc.args[0])) == nf(parse_expr("%s * %s" % (gdp[0], gdp[1])))
+    r.require(ok, got, got.loc(a), "the tail is not padded to num_chunks * input_chunk_size bytes: %s" % src(got, a))
+    # the chunks are input_chunk_size slices of the padded data
+    rets = got.cfg().find(is_return)
+    ch = Sym(idx, got).expand(rets[0], rets[0].ast.value) if len(rets) == 1 else None
+    ok = isinstance(ch, ast.ListComp) and isinstance(ch.elt, ast.Subscript) and isinstance(ch.elt.slice, ast.Slice) \
+        and len(ch.generators) == 1 and isinstance(ch.generators[0].iter, ast.Call) and call_tail(ch.generators[0].iter) == "range"
+    if ok:
+        g = ch.generators[0]
+        i = g.target.id if isinstance(g.target, ast.Name) else "?"
+        ra = [nf(x) for x in g.iter.args]
+        ok = nf(ch.elt.slice.lower) == i and nrm.poly(ch.elt.slice.upper) == Poly.atom(i) + Poly.atom(gdp[1]) \
+            and len(ra) == 3 and ra[0] == "0" and ra[2] == gdp[1] and ra[1] == "len(%s)" % nf(ch.elt.value)
+    r.require(ok, got, got.loc(rets[0].ast if rets else None), "chunks are not consecutive %s-byte slices of the data" % gdp[1])
+
+    # ---- writer: _encode_segment ties is_tail to the tail codec and to allow_short
+    es = idx.func(ENC + "._encode_segment")
+    esp = first_positional_params(es)
+    ss = Sym(idx, es)
+    gc = the_call(es, "_gather_data")
+    gn = node_of(es, gc)
+    b = bind_call_args(gd, gc)
+    r.site(es, gc, "allow_short=%s" % nf(b.get("allow_short")))
+    r.require(nf(ss.expand(gn, b.get("allow_short", ast.Constant(value=False)))) == esp[1], es, es.loc(gc),
+              "short reads are allowed for allow_short=%s, not exactly for the tail segment" % nf(b.get("allow_short")))
+    wmap, _d, _c = writer_symbols(idx)
+    r.require(nf(ss.expand(gn, b[gdp[0]]), wmap) == "K", es, es.loc(gc), "a segment is split into %s chunks, not k" % nf(b[gdp[0]]))
+    ec = the_call(es.nested.get("_done_gathering") or es, "encode")
+    recv = attr_path(ec.func.value)
+    cdef = ss.expand(gn, ast.Name(id=recv or "?", ctx=ast.Load()))
+    ok = isinstance(cdef, ast.IfExp) and nf(cdef.test) == esp[1] and nf(cdef.body) == "self._tail_codec" and nf(cdef.orelse) == "self._codec"
+    r.require(ok, es, es.loc(ec), "the codec used for a segment is %s, not (tail codec if is_tail else segment codec)" % nf(cdef))
+    r.require(nf(ss.expand(gn, b[gdp[1]])) == "%s.get_block_size()" % nf(cdef), es, es.loc(gc),
+              "chunk size %s is not the block size of the codec that encodes the chunks" % nf(ss.expand(gn, b[gdp[1]])))
+    gb = idx.func("codec:CRSEncoder.get_block_size")
+    rr = gb.cfg().find(is_return)
+    r.require(len(rr) == 1 and nf(rr[0].ast.value) == "self.share_size", gb, gb.loc(), "CRSEncoder.get_block_size does not return share_size")
+
+    # ---- writer: start encodes num_segments-1 full segments and then exactly one tail
+    st = idx.func(ENC + ".start")
+    sts = Sym(idx, st)
+    tails, fulls = [], []
+    for c in calls_in_func(st, "_encode_segment", into_lambda=True):
+        bb = bind_call_args(es, c)
+        v = bb.get(esp[1])
+        if isinstance(v, ast.Constant) and v.value is True:
+            tails.append(c)
+        elif isinstance(v, ast.Constant) and v.value is False:
+            fulls.append(c)
+        else:
+            r.violation(st, st.loc(c), "_encode_segment is_tail=%s is not a constant" % nf(v))
+    if not tails or not fulls:
+        raise AnchorVanished("Encoder.start: tail / non-tail _encode_segment calls not found")
+    r.site(st, tails[0], "one tail segment after num_segments-1 full ones")
+    loops = [n for n in st.cfg().nodes if n.kind == "iter"]
+
+    def in_loop(call):
+        return [l for l in loops if any(x is call for x in ast.walk(l.ast))]
+    for c in tails:
+        r.require(not in_loop(c), st, st.loc(c), "the tail segment is encoded inside a loop")
+    r.require(len(tails) == 1, st, st.loc(tails[-1]), "more than one tail segment is encoded")
+    numseg_attr = "self.num_segments"
+    for c in fulls:
+        ls = in_loop(c)
+        ok = len(ls) == 1 and isinstance(ls[0].ast.iter, ast.Call) and call_tail(ls[0].ast.iter) == "range" \
+            and len(ls[0].ast.iter.args) == 1 and nrm.poly(sts.expand(ls[0], ls[0].ast.iter.args[0])) == \
+            Poly.atom(numseg_attr) - Poly.const(1)
+        r.require(ok, st, st.loc(c), "full segments are not encoded exactly num_segments-1 times")
+    regs = registrations(st)
+    pos_t = [i for i, g in enumerate(regs) if any(x is tails[0] for x in ast.walk(g.call))]
+    pos_f = [i for i, g in enumerate(regs) if any(x is c for c in fulls for x in ast.walk(g.call))]
+    r.require(bool(pos_t) and bool(pos_f) and max(pos_f) < min(pos_t), st, st.loc(tails[0]), "the tail segment is not encoded last")
+
+    # ---- reader: _decode_blocks
+    db = idx.func(NODE + "._decode_blocks")
+    dbp = first_positional_params(db)
+    ds = Sym(idx, db)
+    dc = the_call(db, "decode")
+    dn = node_of(db, dc)
+    recv = attr_path(dc.func.value)
+    tailname = None
+    for n in db.cfg().nodes:
+        if n.kind == "test" and isinstance(n.ast, ast.Name):
+            okt, _g = is_tail_expr(db, ds, n, n.ast, dbp[0], "self.num_segments")
+            if okt:
+                tailname = n.ast.id
+    if tailname is None:
+        raise AnchorVanished("_decode_blocks: no branch on segnum == num_segments-1")
+    r.site(db, dc, "tail decode")
+    sp = [c for c in calls_in_func(db, "set_params") if attr_path(c.func.value) == recv]
+    if len(sp) != 1:
+        raise AnchorVanished("_decode_blocks: tail codec set_params not found")
+    dec_fn = idx.func("codec:CRSDecoder.set_params")
+    b = {k_: nf(ds.expand(node_of(db, sp[0]), v_)) for k_, v_ in bind_call_args(dec_fn, sp[0]).items()}
+    dpar = first_positional_params(dec_fn)
+    r.require([b.get(x) for x in dpar] == ["self.tail_segment_padded", "self._verifycap.needed_shares", "self._verifycap.total_shares"],
+              db, db.loc(sp[0]), "tail decoder parameters are %s" % b)
+    for (n, w) in gated_by_truth(db, lambda q: any(c is sp[0] for c in node_calls(q)), tailname):
+        r.violation(db, db.loc(n.ast), "the padded-tail decoder is configured for a non-tail segment", w)
+    cdefs = db.cfg() and ds.rd.get(dn.id, {}).get(recv, frozenset())
+    vals = sorted(nf(ds.fnorm._def_value(db.cfg().nodes[d], recv)) for d in cdefs if d != C.PARAM_DEF)
+    r.require(vals == ["CRSDecoder()", "self._codec"], db, db.loc(dc), "segment decoder is one of %s" % vals)
+    for d in cdefs:
+        dnode = db.cfg().nodes[d]
+        if nf(ds.fnorm._def_value(dnode, recv)) != "self._codec":
+            for (n, w) in gated_by_truth(db, lambda q, _d=dnode: q is _d, tailname):
+                r.violation(db, db.loc(n.ast), "a fresh decoder replaces the segment decoder for a non-tail segment", w)
+    # the full-segment decoder is configured from the UEB segment size
+    pu = idx.func(NODE + "._parse_and_store_UEB")
+    pus = Sym(idx, pu, expand_attrs=True, keep={"self._verifycap"})
+    mc = the_call(pu, "set_params", lambda c: attr_path(c.func.value) == "self._codec")
+    bb = {k_: nf(pus.expand(node_of(pu, mc), v_)) for k_, v_ in bind_call_args(dec_fn, mc).items()}
+    r.require(re.match(r"^(\w+\.)*unpack_extension\(.*\)\['segment_size'\]$", bb.get(dpar[0], "")) is not None
+              and [bb.get(x) for x in dpar[1:]] == ["self._verifycap.needed_shares", "self._verifycap.total_shares"],
+              pu, pu.loc(mc), "segment decoder parameters are %s" % bb)
+    # trimming in _process
+    pr = db.nested.get("_process")
+    if pr is None:
+        raise AnchorVanished("_decode_blocks._process")
+
+    def trims(n):
+        return n.kind == "stmt" and isinstance(n.ast, ast.Assign) and isinstance(n.ast.value, ast.Subscript) \
+            and isinstance(n.ast.value.slice, ast.Slice)
+    tn = pr.cfg().find(trims)
+    if len(tn) != 1:
+        raise AnchorVanished("_decode_blocks._process: trimming slice not found")
+    r.site(pr, tn[0].ast, "tail trim")
+    sl = tn[0].ast.value.slice
+    r.require(sl.lower is None and sl.step is None and nf(sl.upper) == "self.tail_segment_size", pr, pr.loc(tn[0].ast),
+              "the tail is trimmed to %s, not to [:tail_segment_size]" % src(pr, tn[0].ast.value))
+    for (n, w) in gated_by_truth(pr, trims, tailname):
+        r.violation(pr, pr.loc(n.ast), "a decoded segment is trimmed although it is not the tail", w)
+    # the join feeds the trim and the return
+    rets = pr.cfg().find(is_return)
+    ok = len(rets) == 1 and isinstance(rets[0].ast.value, ast.Tuple) and isinstance(rets[0].ast.value.elts[0], ast.Name) \
+        and rets[0].ast.value.elts[0].id in node_stores(tn[0])
+    r.require(ok, pr, pr.loc(rets[0].ast if rets else None), "the trimmed segment is not what _process returns")
+    # must-follow: on the tail path the trim is not skipped
+    cfgp = pr.cfg()
+    fnp = FlowNorm(pr)
+    for n in cfgp.nodes:
+        if n.kind == "test":
+            for (d, lab) in cfgp.succ[n.id]:
+                f = fnp.edge_fact(n, lab)
+                if f and f[0] == "truth" and f[1] == tailname:
+                    vis, par = explore(cfgp, 0, lambda a_, l_, nx, st_: None if trims(a_) else 0, start=cfgp.nodes[d])
+                    if not trims(cfgp.nodes[d]) and any(cfgp.nodes[i].kind == "exit" for (i, _s) in vis):
+                        r.violation(pr, pr.loc(n.ast), "the tail segment can be returned without trimming the padding")
+
+    # ---- reader: block addressing in the share vs the writer's put_block
+    sd = idx.func(SHARE + "._satisfy_data_block")
+    sdp = first_positional_params(sd)
+    sds = Sym(idx, sd)
+    pc = the_call(sd, "pop", lambda c: len(c.args) == 2)
+    pn_ = node_of(sd, pc)
+    start = nrm.poly(sds.expand(pn_, pc.args[0]))
+    want = Poly.atom("self.actual_offsets['data']") + Poly.atom(sdp[0]) * Poly.atom("self._node.block_size")
+    r.site(sd, pc, "block address %s" % start)
+    r.require(start == want, sd, sd.loc(pc), "block %s is read at %s; the writer puts it at offsets['data'] + %s * block_size" % (
+        sdp[0], start, sdp[0]))
+    ln = pc.args[1]
+    defs = sds.rd.get(pn_.id, {}).get(ln.id, frozenset()) if isinstance(ln, ast.Name) else frozenset()
+    vals = {}
+    for d in defs:
+        if d != C.PARAM_DEF:
+            vals[nf(sds.fnorm._def_value(sd.cfg().nodes[d], ln.id))] = sd.cfg().nodes[d]
+    r.require(sorted(vals) == ["self._node.block_size", "self._node.tail_block_size"], sd, sd.loc(pc),
+              "block length is one of %s" % sorted(vals))
+    tn2 = None
+    for n in sd.cfg().nodes:
+        if n.kind == "test" and isinstance(n.ast, ast.Name):
+            okt, _g = is_tail_expr(sd, sds, n, n.ast, sdp[0], "self._node.num_segments")
+            if okt:
+                tn2 = n.ast.id
+    if tn2 is None:
+        r.violation(sd, sd.loc(), "_satisfy_data_block has no branch on segnum == num_segments-1")
+    elif "self._node.tail_block_size" in vals:
+        tnode = vals["self._node.tail_block_size"]
+        for (n, w) in gated_by_truth(sd, lambda q: q is tnode, tn2):
+            r.violation(sd, sd.loc(n.ast), "the tail block length is used for a non-tail segment", w)
+        # and the tail never keeps the full block length
+        cfgs = sd.cfg()
+        fns = FlowNorm(sd)
+        for n in cfgs.nodes:
+            if n.kind == "test":
+                for (d, lab) in cfgs.succ[n.id]:
+                    f = fns.edge_fact(n, lab)
+                    if f and f[0] == "truth" and f[1] == tn2 and cfgs.nodes[d] is not tnode:
+                        vis, par = explore(cfgs, 0, lambda a_, l_, nx, st_: None if a_ is tnode else 0, start=cfgs.nodes[d])
+                        if any(cfgs.nodes[i] is pn_ for (i, _s) in vis):
+                            r.violation(sd, sd.loc(n.ast), "the tail block can be read with the full block length")
+
+
+# --------------------------------------------------------------- AES-CTR
+def run_ctr(ctx, r):
+    """DecryptingConsumer positions the AES-CTR counter from the read offset (shared with C04)."""
+    idx = ctx.idx
+    nrm = Normaliser(Env(None, depth=0))
+    folder = get_folder(idx)
+    block = len(folder.module_const("crypto.aes", "DEFAULT_IV"))
+    init = idx.func(DECR + ".__init__")
+    ps = first_positional_params(init)
+    if len(ps) != 3:
+        raise AnchorVanished("DecryptingConsumer.__init__ signature changed")
+    off = ps[2]
+    s = Sym(idx, init)
+    cd = the_call(init, "create_decryptor")
+    cn = node_of(init, cd)
+    r.site(init, cd, "counter from offset, block=%d" % block)
+    r.require(len(cd.args) == 2 and nf(cd.args[0]) == ps[1], init, init.loc(cd), "decryptor key is %s" % nf(cd.args[0]) if cd.args else "?")
+    iv = s.expand(cn, cd.args[1]) if len(cd.args) > 1 else None
+    ok = isinstance(iv, ast.Call) and call_tail(iv) == "unhexlify" and len(iv.args) == 1 and isinstance(iv.args[0], ast.BinOp) \
+        and isinstance(iv.args[0].op, ast.Mod) and isinstance(iv.args[0].left, ast.Constant)
+    big = None
+    if ok:
+        m = re.match(r"^%0(\d+)x$", iv.args[0].left.value if isinstance(iv.args[0].left.value, str) else "")
+        r.require(m is not None and int(m.group(1)) == 2 * block, init, init.loc(cd), "the IV is formatted with %r, not as %d "
+                  "hex digits (one cipher block)" % (iv.args[0].left.value, 2 * block))
+        big = iv.args[0].right
+    else:
+        r.violation(init, init.loc(cd), "the IV is %s, not the hex encoding of the block counter" % nf(iv))
+    okb = isinstance(big, ast.BinOp) and isinstance(big.op, ast.FloorDiv) and nf(big.left) == off and \
+        isinstance(big.right, ast.Constant) and big.right.value == block
+    r.require(okb, init, init.loc(cd), "the block counter is %s, not %s // %d" % (nf(big), off, block))
+    # store and residue
+    stores_ = [n for n in init.cfg().nodes if "self._decryptor" in node_stores(n)]
+    r.require(len(stores_) == 1 and assign_value(stores_[0], "self._decryptor") is cd, init, init.loc(cd),
+              "the positioned decryptor is not what is kept in self._decryptor")
+    dd = [c for c in calls_in_func(init, "decrypt_data")]
+    if len(dd) != 1:
+        r.violation(init, init.loc(), "the intra-block residue of the offset is not consumed in __init__ (found %d "
+                    "decrypt_data calls)" % len(dd))
+    else:
+        c = dd[0]
+        n = node_of(init, c)
+        e = s.expand(n, c.args[1]) if len(c.args) == 2 else None
+        ok = len(c.args) == 2 and nf(c.args[0]) == "self._decryptor" and isinstance(e, ast.BinOp) and isinstance(e.op, ast.Mult)
+        small = None
+        if ok:
+            for a_, b_ in ((e.left, e.right), (e.right, e.left)):
+                if isinstance(a_, ast.Constant) and isinstance(a_.value, bytes) and len(a_.value) == 1:
+                    small = b_
+        oks = isinstance(small, ast.BinOp) and isinstance(small.op, ast.Mod) and nf(small.left) == off and \
+            isinstance(small.right, ast.Constant) and small.right.value == block
+        r.require(ok and oks, init, init.loc(c), "the decryptor is advanced by %s, not by %s %% %d bytes" % (nf(e), off, block))
+        r.require(bool(stores_) and dominated_by(init.cfg(), stores_[0], n), init, init.loc(c),
+                  "the residue is consumed before the decryptor exists")
+    ci = idx.cls(DECR)
+    for m in ci.methods.values():
+        if m.name != "__init__":
+            for n in m.cfg().nodes:
+                if "self._decryptor" in node_stores(n):
+                    r.violation(m, m.loc(n.ast), "%s re-binds the decryptor (the counter position is lost)" % m.name)
+    # write: decrypt the parameter with that decryptor, write the plaintext
+    w = idx.func(DECR + ".write")
+    wp = first_positional_params(w)
+    ws = Sym(idx, w)
+    wc = the_call(w, "write")
+    r.site(w, wc, "decrypt-then-write")
+    pt = ws.expand(node_of(w, wc), wc.args[0]) if wc.args else None
+    ok = isinstance(pt, ast.Call) and call_tail(pt) == "decrypt_data" and len(pt.args) == 2 and \
+        nf(pt.args[0]) == "self._decryptor" and nf(pt.args[1]) == wp[0] and call_name(wc) == "self._consumer.write"
+    r.require(ok, w, w.loc(wc), "write passes %s to %s" % (nf(pt), call_name(wc)))
+    r.require(len(calls_in_func(w, "decrypt_data")) == 1, w, w.loc(), "write decrypts more or less than once per chunk")
+    # the node passes one offset to both the decryptor and the ciphertext reader
+    rd = idx.func("immutable.filenode:ImmutableFileNode.read")
+    rp = first_positional_params(rd)
+    rs = Sym(idx, rd)
+    dc = the_call(rd, "DecryptingConsumer")
+    rc = the_call(rd, "read", lambda c: attr_path(c.func.value) == "self._cnode")
+    r.site(rd, dc, "same offset for counter and ciphertext")
+    b1 = bind_call_args(init, dc)
+    cread = idx.func("immutable.filenode:CiphertextFileNode.read")
+    b2 = bind_call_args(cread, rc)
+    cp = first_positional_params(cread)
+    r.require(nf(b1.get(off)) == rp[1] and nf(b2.get(cp[1])) == rp[1], rd, rd.loc(rc), "the decryptor is positioned at %s "
+              "but ciphertext is read from %s" % (nf(b1.get(off)), nf(b2.get(cp[1]))))
+    got = rs.expand(node_of(rd, rc), b2.get(cp[0]))
+    r.require(got is not None and isinstance(got, ast.Call) and call_tail(got) == "DecryptingConsumer", rd, rd.loc(rc),
+              "ciphertext is delivered to %s, not to the decrypting consumer" % nf(got))
+    r.require(nf(b1.get(ps[0])) == rp[0] and nf(b1.get(ps[1])) == "self._readkey" and nf(b2.get(cp[2])) == rp[2], rd, rd.loc(dc),
+              "consumer/key/size are not passed through")
+    cn_ = idx.func("immutable.filenode:CiphertextFileNode.read")
+    nr = the_call(cn_, "read")
+    dnr = idx.func(NODE + ".read")
+    b3 = bind_call_args(dnr, nr)
+    r.require([nf(b3.get(x)) for x in first_positional_params(dnr)] == cp, cn_, cn_.loc(nr),
+              "CiphertextFileNode.read does not pass (consumer, offset, size) through")
+
+
+def run_encryptor(ctx, r):
+    idx = ctx.idx
+    ea = idx.cls("immutable.upload:EncryptAnUploadable")
+    ge = idx.func("immutable.upload:EncryptAnUploadable._get_encryptor")
+    got = ge.nested.get("_got")
+    if got is None:
+        raise AnchorVanished("_get_encryptor._got")
+    ce = the_call(got, "create_encryptor")
+    r.site(got, ce, "counter starts at 0")
+    r.require(len(ce.args) == 1 and not ce.keywords, got, got.loc(ce), "the encryptor is created with an explicit IV: %s" % src(got, ce))
+    st = [n for n in got.cfg().nodes if "self._encryptor" in node_stores(n)]
+    r.require(len(st) == 1 and assign_value(st[0], "self._encryptor") is ce, got, got.loc(ce), "the encryptor is not kept in self._encryptor")
+    # created once: the key is fetched only when no encryptor exists yet
+    for (n, w) in gated_by_truth(ge, has_call("get_encryption_key"), "self._encryptor", polarity="false"):
+        r.violation(ge, ge.loc(n.ast), "a new encryptor (counter 0) can be created although one exists", w)
+    for m in ea.methods.values():
+        if m.name in ("__init__", "_get_encryptor"):
+            continue
+        for f in [m] + list(m.nested.values()):
+            for n in f.cfg().nodes:
+                if "self._encryptor" in node_stores(n):
+                    r.violation(f, f.loc(n.ast), "%s re-binds the encryptor" % short(f))
+    # every chunk read advances the counter (also when only hashing)
+    he = idx.func("immutable.upload:EncryptAnUploadable._hash_and_encrypt_plaintext")
+    cfg = he.cfg()
+    enc_nodes = cfg.find(has_call("encrypt_data"))
+    if not enc_nodes:
+        raise AnchorVanished("_hash_and_encrypt_plaintext: encrypt_data call not found")
+    r.site(he, enc_nodes[0].ast, "every chunk is encrypted in order")
+    for n in enc_nodes:
+        for c in calls_at(n, "encrypt_data"):
+            r.require(len(c.args) == 2 and nf(c.args[0]) == "self._encryptor", he, he.loc(c), "chunk is encrypted with %s" % src(he, c))
+    pops = cfg.find(has_call("pop"))
+    for (sn, w) in find_path_from_to_avoiding(cfg, lambda q: q in pops, has_call("encrypt_data"),
+                                             ends=lambda q: q.kind == "exit" or q in pops):
+        r.violation(he, he.loc(sn.ast), "a chunk can be consumed without advancing the AES counter", w)
+
+
 # ====================================================================== driver
 def run(ctx: Context):
     idx = ctx.idx
@@ -921,5 +1386,20 @@ def run(ctx: Context):
         run_layout_table(ctx, r)
 
     with ctx.rule("C01.4", "R5/R6", "share regions are contiguous: offsets[next] - offsets[this] equals the length the "
-                  "put_* method of the region asserts; the encoder sends the regions in layout order", expected=13) as r:
+                  "put_* method of the region asserts; the encoder sends the regions in layout order", expected=7) as r:
         run_contiguity(ctx, r)
+
+    with ctx.rule("C01.5", "R5", "UEB keys read by the downloader / verifier are written by the encoder, declared for the "
+                  "size pre-computation, fit the pack_extension key grammar, and numeric ones are converted", expected=6) as r:
+        run_ueb(ctx, r)
+
+    with ctx.rule("C01.6", "R1/R6", "padding only for the tail segment with the tail codec, exactly one tail encoded last; "
+                  "the downloader uses the padded-tail decoder, trims and shortens the block only for the tail; block "
+                  "addresses agree with put_block", expected=6) as r:
+        run_padtrim(ctx, r)
+
+    with ctx.rule("C01.7", "R6", "AES-CTR: DecryptingConsumer splits the offset with one constant equal to the cipher block "
+                  "size, consumes the residue before any write and decrypts every chunk once; the encryptor starts at "
+                  "counter 0, is created once and advances for every chunk", expected=5) as r:
+        run_ctr(ctx, r)
+        run_encryptor(ctx, r)
